@@ -122,10 +122,15 @@ func genConf(rng *rand.Rand, w *world, idx int) *conf {
 	if rng.Intn(2) == 0 {
 		c.Parallel = 1 + rng.Intn(4)
 	}
-	if rng.Intn(3) == 0 {
-		c.Timeout = "300s"
-	}
+	// every configuration carries a script time-out well below the watchdog: a script that blocks for ever (e.g. on a
+	// request slot another, failed script never released) then ends with a time-out error and is judged by the
+	// end-marker rule instead of making the whole run inconclusive. Generated scripts finish within milliseconds.
+	c.Timeout = "12s"
 	withFail := nScripts > 1 && rng.Intn(100) < 55
+	if withFail && rng.Intn(2) == 0 {
+		// one shared request slot: whatever a failing script keeps holding blocks every later script
+		c.Parallel = 1
+	}
 	for i := 0; i < nScripts; i++ {
 		name := fmt.Sprintf("c%d-s%d", idx, i)
 		if rng.Intn(4) == 0 {
@@ -139,7 +144,7 @@ func genConf(rng *rand.Rand, w *world, idx int) *conf {
 		n := 3 + rng.Intn(9)
 		s := genScript(rng, w, c.Assign, c.RLHosts, ro, name, kind, fmt.Sprintf("x%ds%d", idx, i), n, c.Kind == "core" && i == 0)
 		if rng.Intn(4) == 0 {
-			s.Timeout = "240s"
+			s.Timeout = "10s"
 		}
 		c.Scripts = append(c.Scripts, s)
 	}
